@@ -31,19 +31,28 @@
 (***************************************************************************)
 EXTENDS FillSem, Json
 
-CONSTANTS MaxPre, MaxN, PreAlphabet, Accs, Posts, Pairs, Drivers, Bufs
+CONSTANTS MaxPre, MaxN, PreAlphabet, Accs, Posts, FlowKinds, Drivers, Bufs,
+          Places,      \* Split: the chain is the only branch ("alone") or has sibling branches: "first" [chain, A, B],
+                       \* "middle" [A, chain, B], "last" [A, B, chain]; A changes the context of the values it is
+                       \* given in place (a Variable), B is an ordinary branch
+          CopyMode     \* "per_branch": every branch but the last gets its own deep copy of the block (documented);
+                       \* "shared": one copy handed to all branches but the last (must be rejected)
 
 (***************************************************************************)
 (* Chains and the machine.                                                 *)
 (***************************************************************************)
 AllSlices == {Slice(a, b, s) : a \in 0..3, b \in (0..3) \cup {None}, s \in 1..2}
-AlphaQuick == {Map("inc"), Map("var"), Filter("even"), Filter("none"), Slice(0, 2, 1), Slice(1, None, 2), Slice(1, 3, 2),
+CtxSel == {CFilter("odd", "str"), CFilter("variable", "fn"), CFilter("t", "str"), CFilter("odd", "fn"),
+           CRunIf("odd", "inc"), CRunIf("variable", "drop"), CRunIf("t", "dbl")}
+AlphaQuick == CtxSel \cup {Map("tag"), Map("inc"), Map("var"), Filter("even"), Filter("none"), Slice(0, 2, 1), Slice(1, None, 2), Slice(1, 3, 2),
                Slice(0, 0, 1), RunIf("even", "inc"), RunIf("lt2", "drop")}
 AlphaMid == AlphaQuick \cup {Map("dbl"), Map("tag"), Filter("lt2"), Slice(2, 3, 1), Slice(0, 3, 2), Slice(3, None, 1),
                              RunIf("all", "dbl")}
 AlphaFull == AlphaMid \cup AllSlices \cup {Map("upd"), Filter("all"), RunIf("even", "drop")}
-AlphaSmall == {Map("inc"), Map("var"), Filter("even"), Slice(0, 2, 1), Slice(1, 3, 2), Slice(1, None, 2),
-               RunIf("lt2", "drop")}
+AlphaSmall == {Map("inc"), Map("var"), Filter("even"), Slice(0, 2, 1), Slice(1, 3, 2), RunIf("lt2", "drop"),
+               CFilter("odd", "str"), CFilter("variable", "fn"), CRunIf("odd", "inc")}
+AlphaThorough == AlphaSmall \cup {Map("tag"), CFilter("t", "str"), Filter("none")}
+AlphaDeep == {Map("inc"), Map("var"), Filter("even"), Slice(0, 2, 1), Slice(1, 3, 2), CFilter("odd", "str"), CRunIf("odd", "inc")}
 PostsSmall == {<<>>, <<Map("inc")>>, <<Sum>>}
 AccsSmall == {"sum", "store1"}
 BufQuick == {1, 2, 3, 1000, None}
@@ -59,16 +68,17 @@ Pres(n) == IF n = 0 THEN {<<>>}
 Chains == {[pre |-> p, acc |-> a, post |-> q] : p \in Pres(MaxPre), a \in Accs, q \in Posts}
 BufAll == (1..(MaxN + 1)) \cup {1000, None}
 
-VARIABLES ch, N, pairs, drv, bs,      \* scenario
+VARIABLES ch, N, fk, drv, bs, place,   \* scenario
           pos,                         \* values taken from the flow
           locs, aloc,                  \* per pre element state (run side or fill side); accumulator
           buf, active, stopped,        \* Split: current block, branch still active; LenaStopFill seen
           reach, out, computes, stopAt, phase
-vars == <<ch, N, pairs, drv, bs, pos, locs, aloc, buf, active, stopped, reach, out, computes, stopAt, phase>>
+vars == <<ch, N, fk, drv, bs, place, pos, locs, aloc, buf, active, stopped, reach, out, computes, stopAt, phase>>
 
-xs == FlowOf(N, pairs)
-Init == /\ ch \in Chains /\ N \in 0..MaxN /\ pairs \in Pairs /\ drv \in Drivers
+xs == FlowOf(N, fk)
+Init == /\ ch \in Chains /\ N \in 0..MaxN /\ fk \in FlowKinds /\ drv \in Drivers
         /\ bs \in (IF drv = "split" THEN Bufs ELSE {None})
+        /\ place \in (IF drv = "split" THEN Places ELSE {"alone"})
         /\ pos = 0
         /\ locs = [i \in 1..Len(ch.pre) |-> IF drv = "run" THEN InitLoc(ch.pre[i]) ELSE FillLoc(ch.pre[i])]
         /\ aloc = AccInit(ch.acc)
@@ -76,8 +86,8 @@ Init == /\ ch \in Chains /\ N \in 0..MaxN /\ pairs \in Pairs /\ drv \in Drivers
         /\ reach = <<>> /\ out = <<>> /\ computes = 0 /\ stopAt = None
         /\ phase = (IF drv = "split" THEN "read" ELSE "feed")
 
-Scenario == UNCHANGED <<ch, N, pairs, drv, bs>>
-Results == Sem(ch.post, AccCompute(ch.acc, aloc))
+Scenario == UNCHANGED <<ch, N, fk, drv, bs, place>>
+Results == Sem2(ch.post, AccCompute(ch.acc, aloc))
 
 \* ---- Sequence.run
 RunFeed == /\ drv = "run" /\ phase = "feed" /\ pos < N
@@ -114,14 +124,18 @@ FillBlock(pre, l, vs) ==
        IF r.stop THEN [locs |-> r.locs, reach |-> r.reach, stop |-> TRUE, n |-> 0]
        ELSE LET rest == FillBlock(pre, r.locs, Tail(vs)) IN
             [locs |-> rest.locs, reach |-> r.reach \o rest.reach, stop |-> rest.stop, n |-> rest.n + 1]
+\* what the chain's branch is given: the block itself or a deep copy of it - equal values; with one shared
+\* copy a branch that is neither first nor last sees what the sibling before it did to the contexts in place
+Touched(v) == IF v.h THEN [v EXCEPT !.c = @ \cup {"variable"}] ELSE v
+Given(blk) == IF CopyMode = "shared" /\ place = "middle" THEN [j \in 1..Len(blk) |-> Touched(blk[j])] ELSE blk
 SplitFill == /\ drv = "split" /\ phase = "fill"
              /\ IF ~active THEN UNCHANGED <<locs, aloc, reach, stopped, active, out, computes, stopAt>>
-                ELSE LET r == FillBlock(ch.pre, locs, buf)
+                ELSE LET r == FillBlock(ch.pre, locs, Given(buf))
                          a2 == AccFillAll(ch.acc, aloc, r.reach) IN
                      /\ locs' = r.locs /\ aloc' = a2 /\ reach' = reach \o r.reach
                      /\ stopped' = r.stop /\ active' = ~r.stop
                      /\ stopAt' = (IF r.stop THEN pos - Len(buf) + r.n ELSE None)
-                     /\ IF r.stop THEN /\ out' = Sem(ch.post, AccCompute(ch.acc, a2)) /\ computes' = computes + 1
+                     /\ IF r.stop THEN /\ out' = Sem2(ch.post, AccCompute(ch.acc, a2)) /\ computes' = computes + 1
                         ELSE UNCHANGED <<out, computes>>
              /\ phase' = "read"
              /\ Scenario /\ UNCHANGED <<pos, buf>>
@@ -151,5 +165,5 @@ ComputeOnce == /\ computes <= 1
 BufBound == bs # None => Len(buf) <= bs
 
 Emitted == (Done /\ drv = "fill") =>
-   PrintT(ToJson([ch |-> ch, N |-> N, pairs |-> pairs, out |-> out, reach |-> reach, stopAt |-> stopAt]))
+   PrintT(ToJson([ch |-> ch, N |-> N, fk |-> fk, out |-> out, reach |-> reach, stopAt |-> stopAt]))
 =============================================================================
